@@ -127,13 +127,22 @@ def run(ctx, chk):
     selfp = ("param", s.fi.params[0])
     ok = len(gs) == 1 and not gs[0].pc
     detail = f"{len(gs)} call(s)"
+    from .shapes import new_args
+    ext = "exact"
     if ok:
-        a = gs[0].data["args"]
-        ok = len(a) == 3 and a[0] == selfp and a[1] == ("attr", selfp, "current_state") \
-            and a[2] == ("param", s.fi.params[1])
-        detail = f"generative_step({', '.join(scn.show(x) for x in a)})"
-    chk.ob("C13.delegation", "step: exactly one unconditional call "
-           "generative_step(self.current_state, action)", ok, detail, s.fi.module.path)
+        a, kw_, ext = new_args(ctx.repo, GSTEP, gs[0].data["args"],
+                               dict(gs[0].data.get("kwargs", ())))
+        ok = len(a) == 3 and not kw_ and a[0] == selfp \
+            and a[1] == ("attr", selfp, "current_state") and a[2] == ("param", s.fi.params[1])
+        detail = f"generative_step({', '.join(scn.show(x) for x in gs[0].data['args'])})"
+    if ok and ext == "extended":
+        chk.undecided("C13.delegation", "step: exactly one unconditional call "
+                      "generative_step(self.current_state, action)", detail + ": called with an "
+                      "argument the documented generative_step(state, action) does not have",
+                      s.fi.module.path)
+    else:
+        chk.ob("C13.delegation", "step: exactly one unconditional call "
+               "generative_step(self.current_state, action)", ok, detail, s.fi.module.path)
     if gs:
         res = gs[0].data["result"]
         stores = {e.fam: e for e in s.stores() if e.kind == "attr"}
@@ -156,15 +165,23 @@ def run(ctx, chk):
     # network.perform_action's inputs are (state, action) only
     pc = sh.calls(PERFORM)
     if pc:
-        a = pc[0].data["args"]
+        a, kw_p, ext_p = new_args(ctx.repo, PERFORM, pc[0].data["args"],
+                                  dict(pc[0].data.get("kwargs", ())))
         st_ok = len(a) == 3 and (a[1] == ("param", sh.fi.params[1]) or
                                  sh.show(a[1]) in (f"new State#{a[1][2]}",) and a[1][0] == "new"
                                  and sh.show(sh.ip.heap[a[1][2]]["fields"].get(
                                      sh.cn.tensor_attr, ("unknown", "?"))) ==
                                  f"copy({sh.fi.params[1]})")
-        ok = len(a) == 3 and st_ok and not pc[0].data["kwargs"]
-        chk.ob("C13.inputs", "generative_step passes exactly (state, action) to the transition "
-               "function", ok, f"{[sh.show(x)[:80] for x in a]}", sh.fi.module.path)
+        ok = len(a) == 3 and st_ok and not kw_p
+        if ok and ext_p == "extended":
+            chk.undecided("C13.inputs", "generative_step passes exactly (state, action) to the "
+                          "transition function", "perform_action is called with an argument the "
+                          "documented perform_action(state, action) does not have: "
+                          f"{[sh.show(x)[:60] for x in pc[0].data['args']]}", sh.fi.module.path)
+        else:
+            chk.ob("C13.inputs", "generative_step passes exactly (state, action) to the transition "
+                   "function", ok, f"{[sh.show(x)[:80] for x in pc[0].data['args']]}",
+                   sh.fi.module.path)
     chk.assume("numpy: np.copy and np.zeros return fresh arrays; ndarray[i] on a 2-D array is a "
                "view, on a 1-D array a scalar")
 
